@@ -78,8 +78,11 @@ GROUPS = {
     "connect": {
         "module": MODULES["Clf"],
         "properties": ["C18", "C09"],
-        "what": "what can leave connect() / sense() / _card_connect; SystemExit of the open finding is stated",
-        "theorems": ["clfAll_ok", "clfOnly_ok", "clfCan_ok", "clf_connect_escapes", "clf_connect_systemexit",
+        "what": "what can leave connect() / sense() / _card_connect, with NFC-DEP activation translated down to the drivers "
+                "(no assumption about mac.activate); no TimeoutError/BrokenLinkError/ProtocolError leaves connect(); "
+                "SystemExit of the open finding is stated",
+        "theorems": ["clfAll_ok", "clfOnly_ok", "clfNever_ok", "clfCan_ok", "clf_connect_escapes", "clf_connect_no_commerror",
+                     "clf_connect_systemexit",
                      "clf_llcp_connect_keyboardinterrupt", "clf_sense_several_escapes", "clf_sense_single_unsupported",
                      "clf_card_connect_escapes", "clf_listen_raises_commerror"],
     },
@@ -135,14 +138,14 @@ GROUPS = {
         "what": "sense_*/listen_* of every driver class (pn53x family, rcs380, udp, acr122, arygon), Device.__init__/close/mute, "
                 "nfc.clf.device.connect, ContactlessFrontend.__init__/open/close/sense/listen calling the drivers (no assumption "
                 "about a driver's sense_*/listen_* any more): what leaves them; the driver-internal Chipset.Error / StatusError "
-                "DO leave target discovery, sense() and listen(); connect(llcp=...) linked from the frontend down to the drivers is "
-                "left by CommunicationError subclasses (defect, reproduced with the UDP driver)",
+                "DO leave target discovery, sense(), listen() and connect(); NFC-DEP activation calling the real sense()/listen(): "
+                "no TimeoutError/BrokenLinkError/ProtocolError leaves a driver's listen_dep, listen() or activation (fixes/C18/0005)",
         "theorems": ["discoveryAll_ok", "discoveryOnly_ok", "discoveryNever_ok", "discoveryCan_ok", "pn53x_sense_escapes",
                      "pn53x_listen_escapes", "rcs380_sense_escapes", "rcs380_listen_escapes",
                      "rcs380_discovery_no_internal_commerror", "udp_sense_escapes", "udp_listen_escapes", "frontend_escapes",
                      "driver_internal_classes_leave_discovery", "clf_sense_listen_internal_classes",
-                     "clf_sense_absorbs_commerror", "udp_discovery_raises_commerror", "clf_connect_stack_escapes",
-                     "clf_connect_llcp_commerror"],
+                     "clf_sense_absorbs_commerror", "udp_discovery_raises_commerror", "listen_returns_none_when_peer_silent",
+                     "dep_activate_stack_escapes", "clf_connect_internal_classes"],
     },
 }
 for _d in GROUPS.values():                       # fully qualified, as `Check.lean` wants them
@@ -352,9 +355,9 @@ def run(ck, *groups):
     return ok
 
 
-def doc_tables(tr):
+def doc_tables(tr, lean_dir=None):
     """markdown: assumption table, translated functions (source line, sites, links), theorems per function"""
-    summ, _ = summaries()
+    summ, _ = summaries(lean_dir=lean_dir)
     text = "\n".join(open(f).read() for f in props_files())
     L = []
     L.append("### Primitive call sites and what they are assumed to raise\n")
@@ -384,24 +387,54 @@ def doc_tables(tr):
     return "\n".join(L) + "\n"
 
 
+def private_workspace(work=None):
+    """a private Lean workspace with only the ExcFlow files (copied from this tree): the command line tools and the
+    self-test regenerate and evaluate there, never in the shared workspace that running checks rebuild"""
+    import shutil
+    work = work or os.environ.get("EXCFLOW_SELFTEST_DIR", "/tmp/w2-selftest")
+    ws = os.path.join(work, "lean")
+    os.makedirs(os.path.join(ws, "NfcVerif", "Gen"), exist_ok=True)
+    with open(os.path.join(ws, "lakefile.toml"), "w") as f:
+        f.write('name = "NfcVerif"\nversion = "0.1.0"\ndefaultTargets = ["NfcVerif"]\n\n[[lean_lib]]\nname = "NfcVerif"\n'
+                'globs = ["NfcVerif.+"]\n')
+    shutil.copy(os.path.join(LEAN, "lean-toolchain"), os.path.join(ws, "lean-toolchain"))
+    for sub in ("Model", "Lemmas", "Props"):
+        os.makedirs(os.path.join(ws, "NfcVerif", sub), exist_ok=True)
+        keep = set()
+        for name in sorted(os.listdir(os.path.join(LEAN, "NfcVerif", sub))):
+            if not (name.startswith("ExcFlow") and name.endswith(".lean")):
+                continue
+            keep.add(name)
+            src = os.path.join(LEAN, "NfcVerif", sub, name)
+            dst = os.path.join(ws, "NfcVerif", sub, name)
+            if not os.path.exists(dst) or open(src).read() != open(dst).read():
+                shutil.copy(src, dst)
+        for name in os.listdir(os.path.join(ws, "NfcVerif", sub)):
+            if name not in keep:
+                os.remove(os.path.join(ws, "NfcVerif", sub, name))
+    return ws
+
+
 if __name__ == "__main__":
     repo = os.environ.get("NFCPY_REPO", "/repo")
     args = [a for a in sys.argv[1:] if not a.startswith("-")]
     if args:
         repo = args[0]
-    tr = regenerate(repo)
+    # regenerate and evaluate in a private workspace: checks running in parallel rewrite the shared Gen/ files
+    ws = private_workspace(os.environ.get("EXCFLOW_CLI_DIR", "/tmp/excflow-cli-%d" % os.getuid()))
+    tr = regenerate(repo, os.path.join(ws, "NfcVerif", "Gen"))
     print("translated %d functions, %d classes, missing %s" % (len(tr.specs), len(tr.repo.class_tree()), tr.missing))
     if "--doc" in sys.argv:
         path = os.path.join(VERIF, "docs", "exc_flow.md")
         doc = open(path).read()
         a, b = "<!-- BEGIN GENERATED (harness/excflow.py --doc) -->", "<!-- END GENERATED -->"
-        doc = doc[:doc.index(a) + len(a)] + "\n" + doc_tables(tr) + doc[doc.index(b):]
+        doc = doc[:doc.index(a) + len(a)] + "\n" + doc_tables(tr, ws) + doc[doc.index(b):]
         open(path, "w").write(doc)
         print("docs/exc_flow.md tables regenerated")
     if "--summaries" in sys.argv:
-        s, err = summaries()
+        s, err = summaries(lean_dir=ws)
         for k in sorted(s or {}):
             print("%-46s %s" % (k, " ".join(s[k])))
         print(err)
-    d = diagnose(tr)
-    print("\n".join(d) if d else "all statements of Props/ExcFlow.lean hold on %s" % repo)
+    d = diagnose(tr, lean_dir=ws)
+    print("\n".join(d) if d else "all statements of Props/ExcFlow*.lean hold on %s" % repo)
